@@ -1046,6 +1046,10 @@ def gen_C18(rng, tier):
             # range reaches the crash points between the two commits of such an operation
             o["midcrash"] = rng.randrange(0, 30 if o["op"] in ("add_edges", "add_nodes", "connect_parallelroads") else 10)
     battery = [gen_query(rng, rng.choice(["nodes", "edges"]), pts, latlon, mag) for _ in range(4)]
+    hs = random.Random(gen.derive("ship", repr(rng.getstate())))
+    if kind == "sqlite" and hs.random() < 0.3:
+        for _ in range(hs.randint(1, 2)):
+            ops.insert(hs.randint(1, len(ops)), {"op": "ship"})
     d = {"kind": "B", "store": kind, "latlon": latlon, "mag": mag, "ops": ops, "battery": battery}
     if rng.random() < 0.3:
         d["crs"] = [rng.choice(["EPSG:4326", "EPSG:4258"]), rng.choice(["EPSG:3395", "EPSG:31370", "EPSG:3857"])]
@@ -1245,6 +1249,35 @@ def eval_C18(doc):
                             vs.append(V("C18/sqlite/answers-differ/%s" % dk, "before=%r after=%r" % (str(before[dk])[:150], str(after[dk])[:150]), i))
                         bump("full_battery_comparisons")
                     bump("reopen_cycles")
+                elif k == "ship":
+                    # fault kind file_alone: while the writer still holds its connection, the database file - the one file
+                    # `SqliteMap.from_file` takes - is copied without any side file and opened elsewhere.  With nothing
+                    # pending it must show the committed map.
+                    if not sess.ref.pending:
+                        fn = os.path.join(sess.scratch, "store.sqlite")
+                        d2 = os.path.join(sess.scratch, "ship%d" % i)
+                        os.makedirs(d2)
+                        shutil.copy(fn, os.path.join(d2, "store.sqlite"))
+                        bump("fired_file_alone")
+                        m2 = None
+                        try:
+                            m2 = SqliteMap.from_file(os.path.join(d2, "store.sqlite"))
+                            got = store_state(m2)
+                        except Exception as exc:
+                            vs.append(V("C18/sqlite/file-alone/raises/%s" % type(exc).__name__, str(exc)[:200], i))
+                        else:
+                            exp = model_state(sess.ref.view())
+                            for name, g_, e_ in zip(("nodes", "edges", "node-index", "edge-index"), got, exp):
+                                if g_ != e_:
+                                    vs.append(V("C18/sqlite/file-alone/%s" % name, "expected %r got %r" % (e_[:5], g_[:5]), i))
+                                    break
+                        finally:
+                            if m2 is not None:
+                                try:
+                                    m2.db.close()
+                                except Exception:
+                                    pass
+                            shutil.rmtree(d2, ignore_errors=True)
                 elif k.startswith("q_"):
                     pass
                 else:
